@@ -45,6 +45,7 @@ type ExecCtx struct {
 	ghostPos token.Pos
 	lastDynRes []Val
 	instSig  *types.Signature
+	loopIdx  map[ast.Node]int
 	callArgs []Val
 	callRecv *Val
 	inlinedFunc bool // body of a named function inlined at a call site
